@@ -311,6 +311,10 @@ void QXmppOutgoingClient::connectToHost()
 void QXmppOutgoingClient::disconnectFromHost()
 {
     d->c2sStreamManager.onStreamClosed();
+    if (d->socket.socket()->state() == QAbstractSocket::UnconnectedState) {
+        // no disconnected() will follow: requests retained for a resumption that has just been given up
+        d->iqManager.onSessionClosed(SessionEnd { false });
+    }
     d->socket.disconnectFromHost();
 }
 
